@@ -48,6 +48,9 @@ func (w *World) componentOf(obj string) string {
 		for _, pr := range w.P.Procs {
 			for _, r := range pr.Rules {
 				if r.Sub == slot {
+					if _, ok := w.Insts[r.Target]; !ok {
+						return "" // stands in for a processor's component: none of the program's components
+					}
 					return r.Target
 				}
 			}
